@@ -42,6 +42,8 @@ CLAIMED = {
          "MIR-driver rules: IR-joined instance validation against a pairing table, constant identity, dataflow, dominance"),
  "C02": ("other", "PARTIAL (document acceptance rests on serde-derive / serde_json; malformed primitives inherited from C15/C16/C10/C01). Decided: generator type predicates as decision tables (constant propagation over 7 constructors x primitives) against the wire specification incl. sibling agreement; field-attribute decisions by template conditions; generated instance vs IR in both configurations: field names in order, emptiness guards iff omittable, missing_field exactly for required fields, field tables, enum value strings, alias transparency, union discriminator constant on both sides.", "4/C02",
          "MIR-driver rules: decision-table extraction, template conditions, IR-joined instance validation of derive expansions"),
+ "C03": ("other", "PARTIAL: type-correctness of the emitted tree for all IR documents is not applicable to static analysis (only the repository's own instance is compiled). Decided: the identifier-escape table contains every reserved word the running compiler reports (editions 2015-2021, and 2024), `Self` escaped by the camel-case sibling; panic inventory of the generator against a reasoned list (new site / higher count reported), input-dependent size arithmetic checked; the analysis build type-checks both generated configurations of the instance.", "4/C03",
+         "MIR-driver rules: constant-table superset of the compiler's reserved-word predicate, panic-site inventory, instance compilation"),
 }
 NA = {
  "C11": "Content negotiation quantifies over parsed header lists and numeric q-values; its truth lives in comparator outcomes, not in the shape of the code. The structural clauses in reach are decided under C06/C04; a mirror of this implementation's iterator chain would be a brittle proxy (DESIGN.md section 4/C11).",
